@@ -28,7 +28,7 @@ MANIFEST = dict(
     category="other",
     text="Contracts on the kernel functions: EXPECT machinery of asmerr.c (suppression consumes exactly one matching announcement, ENDEXPECT reports "
          "the rest, pass exit reports a missing ENDEXPECT) and the position reports of repetition bodies in as.c (REPT_GetPos/IRP_GetPos agree with "
-         "what REPT_Processor/IRP_Processor just delivered; CurrLine = start line + body line). The run-level statement about every diagnostic of "
+         "what REPT_Processor/IRP_Processor just delivered; CurrLine = start line + body line), line counting across INCLUDE (fresh count inside, includer's count and file name restored) and the start line of every new input level. The run-level statement about every diagnostic of "
          "every program is not decided; the surroundings (include chain, macro bodies, column markers) are named unverified.",
     note="Bounded list lengths (<= 3 announcements, <= 3 body lines, <= 4 parameters). Trusted: ghost channels, logging stubs.",
 )
